@@ -74,14 +74,14 @@ CHECKS["C26"] = dict(
                "clauses are interval-robust (sequence sampled before/after each call; lower bounds on elapsed time only)",
     design=[dict(spec="MCBlocker.tla", cfg="MCBlocker.cfg", cfg_thorough="MCBlocker_thorough.cfg", workers=8, timeout=900)],
     gen=dict(
-        quick=[dict(mode="edges", spec="BlockerGen.tla", cfg="BlockerGenDetEdges1.cfg", depth=18, max=1100, name="det-edges-1peer"),
+        quick=[dict(mode="edges", spec="BlockerGen.tla", cfg="BlockerGenDetEdges1q.cfg", depth=18, max=1100, name="det-edges-1peer"),
                dict(mode="sim", spec="BlockerGen.tla", cfg="BlockerGenDetSim.cfg", depth=30, num=12, max=250, name="det-walks"),
                dict(mode="edges", spec="BlockerGen.tla", cfg="BlockerGenRtEdges.cfg", depth=12, max=45, name="rt-edges"),
                dict(mode="sim", spec="BlockerGen.tla", cfg="BlockerGenRtSim.cfg", depth=12, num=3, max=15, salt=1, name="rt-walks")],
-        thorough=[dict(mode="edges", spec="BlockerGen.tla", cfg="BlockerGenDetEdges1.cfg", depth=18, name="det-edges-1peer"),
-                  dict(mode="edges", spec="BlockerGen.tla", cfg="BlockerGenDetEdges.cfg", depth=18, max=9000, name="det-edges-2peers", timeout=1200),
-                  dict(mode="edges", spec="BlockerGen.tla", cfg="BlockerGenDetEdges2.cfg", depth=18, max=4000, name="det-edges-2peers-T2", timeout=900),
-                  dict(mode="sim", spec="BlockerGen.tla", cfg="BlockerGenDetSim.cfg", depth=45, num=50, max=2000, name="det-walks"),
+        thorough=[dict(mode="edges", spec="BlockerGen.tla", cfg="BlockerGenDetEdges1.cfg", depth=18, max=5000, name="det-edges-1peer", timeout=900),
+                  dict(mode="edges", spec="BlockerGen.tla", cfg="BlockerGenDetEdges2.cfg", depth=18, max=5000, name="det-edges-2peers-T2", timeout=1200),
+                  dict(mode="edges", spec="BlockerGen.tla", cfg="BlockerGenDetEdges.cfg", depth=18, max=4000, name="det-edges-2peers-T3", timeout=1800),
+                  dict(mode="sim", spec="BlockerGen.tla", cfg="BlockerGenDetSim.cfg", depth=45, num=50, max=1500, name="det-walks"),
                   dict(mode="edges", spec="BlockerGen.tla", cfg="BlockerGenRtEdges.cfg", depth=12, max=400, name="rt-edges"),
                   dict(mode="sim", spec="BlockerGen.tla", cfg="BlockerGenRtSim.cfg", depth=14, num=25, max=150, salt=1, name="rt-walks")]),
     post_gen=_c26_front,
@@ -98,4 +98,55 @@ CHECKS["C26"] = dict(
                  "real-time mode: resolution 5 ms, timeout 3 ticks; after a status change the driver waits 4 resolutions before sampling; "
                  "await gives the blocker 5 s",
                  "a Flag issued while the network is not available may be honoured or ignored (the code ignores it)"],
+)
+
+
+# ------------------------------------------------------------------------------------ C40
+def _c40_corrupt(evs):
+    """a delivery that carries another message than the one being published"""
+    for i, e in enumerate(evs):
+        if e.get("op") == "pub" and e.get("dl"):
+            e["dl"][0][2] = e["m"] + 1
+            return i
+    return None
+
+
+CHECKS["C40"] = dict(
+    modules=["pubsub"], level="model_checking", driver="pubsubdrv",
+    design_ref="5 (C40)",
+    technique="TLA+ model of subscribe/fire/apply/publish with the two pending queues checked by TLC over all interleavings; "
+              "TLC-generated interleavings forced on the real subPub by parking its process() goroutine at the verifApplied hook "
+              "(the select order is forced by re-running until it matches); deliveries and applications recorded and judged by the "
+              "TLA+ trace spec with the applications as linearisation points",
+    level_text="TLC exhausts PubSub (2 notifiers, 2 keys incl. the namespace-wide key, <= 3 Subscribe calls; thorough <= 4) in two "
+               "configurations: the code's two channels (every later message delivered; nothing after all unsubscriptions were applied "
+               "unless one overtook its subscription) and one ordered queue (nothing after, unconditionally; no overtaking). The "
+               "generator emits one history per (source state, operation, select choice) edge plus random walks over 3 keys; each is "
+               "executed on subscribe.NewSubPub() and PubSubTrace.tla judges every Publish",
+    level_note="trusted: TLC, the verif hooks of pkg/subscribe (callback at the end of each process() iteration, channel lengths, "
+               "subscriber lists), the harness notifier (records Notify, closes its error channel). Publish is only called while "
+               "process() is parked at the hook or idle; the goroutines started by Subscribe are waited for (channel lengths) before "
+               "the next operation, i.e. a fired error channel queues all its unsubscriptions at once. PublishArray, the rpc-backed "
+               "notifiers and NotifierWithDelay are not exercised",
+    design=[dict(spec="MCPubSub.tla", cfg="MCPubSub.cfg", cfg_thorough="MCPubSub_thorough.cfg", workers=8, timeout=1200),
+            dict(spec="MCPubSub.tla", cfg="MCPubSubOrdered.cfg", cfg_thorough="MCPubSubOrdered_thorough.cfg", workers=8, timeout=900)],
+    gen=dict(
+        quick=[dict(mode="edges", spec="PubSubGen.tla", cfg="PubSubGenEdges.cfg", depth=14, max=1500, name="edges"),
+               dict(mode="sim", spec="PubSubGen.tla", cfg="PubSubGenSim.cfg", depth=22, num=10, max=200, name="walks")],
+        thorough=[dict(mode="edges", spec="PubSubGen.tla", cfg="PubSubGenEdges.cfg", depth=14, name="edges"),
+                  dict(mode="sim", spec="PubSubGen.tla", cfg="PubSubGenSim.cfg", depth=30, num=120, max=4000, name="walks")]),
+    judge=dict(spec="PubSubTrace.tla", cfg="PubSubTrace.cfg"),
+    corrupt=_c40_corrupt,
+    selftest_scenarios=200,
+    nontrivial=lambda s: any(o["op"] == "sub" for o in s["ops"]) and any(o["op"] == "pub" for o in s["ops"]),
+    rule="TLC-generated histories of sub/fire/step/pub over 2 notifiers (edges mode: one shortest history per (source state, operation, "
+         "choice of channel) edge of the gated PubSub state graph with <= 3 subscriptions over 2 keys; walks: -simulate with <= 7 "
+         "subscriptions over 3 keys); distinct = distinct operation sequence incl. wanted select choices; non-trivial = subscribes and publishes",
+    exhaustive=dict(quick=False, thorough=False),
+    assumptions=["error channels fire by being closed (as rpc.Subscription and NotifierWithMsgChan do), so every goroutine started by "
+                 "Subscribe for that notifier queues its unsubscription",
+                 "'after its error channel fires' is read with the same asynchrony as 'after its registration has taken effect': "
+                 "deliveries between the firing and the application of the last unsubscription it triggered are allowed",
+                 "a notifier subscribed twice to one key loses only one entry per unsubscription (removal loop skips the element after a "
+                 "deletion); with closed channels the second unsubscription removes the rest, so this is only visible in between"],
 )
